@@ -346,3 +346,71 @@ theorem tpLines_ok (R : Render) (c : Chart) (hb : ∀ b ∈ c.bpms, BpmOk2 R b) 
     rw [this] at h2; simp [svFields] at h2
 
 end Reamber.Osu
+
+namespace Reamber.Osu
+
+/-! ### `strip` after `rstrip` -/
+
+theorem dropWhile_append_singleton {α} (p : α → Bool) (x : List α) (a : α) :
+    (x ++ [a]).dropWhile p = if x.dropWhile p = [] then (if p a then [] else [a]) else x.dropWhile p ++ [a] := by
+  induction x with
+  | nil => simp [List.dropWhile]; cases p a <;> simp
+  | cons y ys ih =>
+    show (y :: (ys ++ [a])).dropWhile p = _
+    rw [List.dropWhile_cons, List.dropWhile_cons]
+    by_cases hy : p y = true
+    · simp only [hy, if_true]; exact ih
+    · simp [hy]
+
+theorem rstrip_cons (a : Char) (t : Str) :
+    rstrip (a :: t) = if rstrip t = [] then (if isWs a then [] else [a]) else a :: rstrip t := by
+  unfold rstrip
+  rw [List.reverse_cons, dropWhile_append_singleton]
+  by_cases h : List.dropWhile isWs t.reverse = []
+  · simp [h]; cases isWs a <;> simp
+  · simp [h]
+
+theorem rstrip_nil : rstrip ([] : Str) = [] := rfl
+
+theorem lstrip_rstrip_comm (w : Str) : lstrip (rstrip w) = rstrip (lstrip w) := by
+  induction w with
+  | nil => rfl
+  | cons a t ih =>
+    by_cases ha : isWs a = true
+    · have hl : lstrip (a :: t) = lstrip t := by unfold lstrip; rw [List.dropWhile_cons]; simp [ha]
+      rw [hl, rstrip_cons]
+      by_cases hr : rstrip t = []
+      · rw [if_pos hr, if_pos ha, ← ih, hr]
+      · rw [if_neg hr]
+        have : lstrip (a :: rstrip t) = lstrip (rstrip t) := by unfold lstrip; rw [List.dropWhile_cons]; simp [ha]
+        rw [this, ih]
+    · have ha' : isWs a = false := by simpa using ha
+      rw [lstrip_of_head a t ha', rstrip_cons]
+      by_cases hr : rstrip t = []
+      · rw [if_pos hr]; simp only [ha', Bool.false_eq_true, if_false]; exact lstrip_of_head a [] ha'
+      · rw [if_neg hr]; exact lstrip_of_head a _ ha'
+
+theorem rstrip_idem (w : Str) : rstrip (rstrip w) = rstrip w := by
+  unfold rstrip
+  rw [List.reverse_reverse]
+  congr 1
+  generalize w.reverse = x
+  induction x with
+  | nil => rfl
+  | cons y ys ih =>
+    rw [List.dropWhile_cons]
+    by_cases hy : isWs y = true
+    · simp [hy, ih]
+    · simp [hy]
+
+/-- trimming the end first changes nothing for `strip` — hence nothing for `int()`, `float()`, `.strip()` of a value
+whose line has been trimmed -/
+theorem strip_rstrip (w : Str) : strip (rstrip w) = strip w := by
+  unfold strip
+  rw [lstrip_rstrip_comm, rstrip_idem]
+
+theorem readInt_rstrip (w : Str) : readInt (rstrip w) = readInt w := by unfold readInt; rw [strip_rstrip]
+theorem readFloat_rstrip (w : Str) : readFloat (rstrip w) = readFloat w := by unfold readFloat; rw [strip_rstrip]
+theorem readBoolInt_rstrip (w : Str) : readBoolInt (rstrip w) = readBoolInt w := by unfold readBoolInt; rw [readInt_rstrip]
+
+end Reamber.Osu
